@@ -526,3 +526,18 @@ def discarded_values(root, wanted):
             yield from visit(c, parents)
             parents.pop()
     yield from visit(root, [])
+
+
+def increments(node):
+    """Statements that add to a local: `x += e`, `x = x + e`, `x = e + x`.  Yields (lhs Path node, statement node)."""
+    for n in walk(node):
+        if n.get("k") == "AssignOp" and n.get("op") in ("Add", "AddAssign"):
+            l = unwrap_trivial(n["lhs"])
+            if l.get("k") == "Path" and l.get("rk") == "Local":
+                yield l, n
+        elif n.get("k") == "Assign":
+            l = unwrap_trivial(n["lhs"])
+            r = unwrap_trivial(n["rhs"])
+            if l.get("k") == "Path" and l.get("rk") == "Local" and r.get("k") == "Binary" and r.get("op") == "Add" and \
+                    any(unwrap_trivial(r[s]).get("k") == "Path" and unwrap_trivial(r[s]).get("lid") == l.get("lid") for s in ("lhs", "rhs")):
+                yield l, n
